@@ -39,6 +39,25 @@ def _worker(arg):
     obj, rel, summaries, only = arg
     insns, labels, funcs, syms = asmint.parse_obj(obj)
     th = asmint.thresholds_for(insns)
+    # data symbols per section: (section name, offset) -> family of the constant (label name without its trailing numbering)
+    secs_ = {str(x['idx']): x['name'] for x in _readelf_sections(obj)}
+    bysec = {}
+    for n_, sy in syms.items():
+        if sy['type'] in ('NOTYPE', 'OBJECT') and sy['ndx'] in secs_ and n_ and not n_.startswith('..@'):
+            bysec.setdefault(secs_[sy['ndx']], []).append((sy['value'], n_))
+    for v_ in bysec.values():
+        v_.sort()
+
+    def family(sym, off):
+        lst = bysec.get(sym)
+        if lst is None:
+            return re.sub(r'[_0-9]+$', '', sym)       # a named symbol
+        best = None
+        for val, n_ in lst:
+            if val <= off:
+                if best is None or val > best[0] or (val == best[0] and len(n_) < len(best[1])):
+                    best = (val, n_)
+        return re.sub(r'[_0-9]+$', '', best[1]) if best else '%s+%#x' % (sym, off)
     lt = None
     res = {}
     for name, entry in funcs.items():
@@ -55,10 +74,19 @@ def _worker(arg):
             m_ = insns[a_]['mn']
             hist[m_] = hist.get(m_, 0) + 1
         r['hist'] = hist
+        # consumers of image constants: (address, mnemonic, symbol/section, offset of the constant, source line)
+        cu = []
+        for a_ in asmint.reachable_insns(entry, insns):
+            i_ = insns[a_]
+            if i_.get('reloc') and i_.get('reloc_ty') in ('R_X86_64_PC32', 'R_X86_64_PLT32') and i_['mn'] not in ('call', 'jmp', 'lea') and \
+                    i_['mn'] not in asmint.JCC and i_.get('reloc_at') is not None:
+                tgt = i_.get('reloc_add', 0) + (a_ + i_['len'] - i_['reloc_at'])
+                cu.append((a_, i_['mn'], i_['reloc'], tgt, family(i_['reloc'], tgt)))
+        r['constuse'] = cu
         r['gprw0'] = sorted(w0)
         r['callees0'] = sorted(c for c in cl if c)
         # map interesting addresses to source lines
-        addrs = set(e['a'] for e in r['exits']) | set(s['a'] for s in r['stores']) | set(r['assumed']) | \
+        addrs = set(e['a'] for e in r['exits']) | set(s['a'] for s in r['stores']) | set(r['assumed']) | set(c_[0] for c_ in cu) | \
             set(i[1] for i in r['issues'] if isinstance(i[1], int)) | set(x[0] for x in r['special']) | {entry}
         if lt is None:
             lt = _line_table(obj)
